@@ -77,9 +77,9 @@ BLOCK_ASSUME = ['the EVM interpreter enters only as an execution summary (vmErr,
 
 PROPS = {
     'C04': dict(
-        lean_modules=['Model.World', 'Model.StateDB', 'Model.Block', 'Proofs.World', 'Properties.C04', 'Properties.C05', 'Facts.Block', 'Facts.TieFee', 'Facts.TieTransition', 'Facts.TieAnteSig', 'Facts.TieMeta'],
+        lean_modules=['Model.World', 'Model.StateDB', 'Model.Block', 'Proofs.World', 'Properties.C04', 'Properties.C05', 'Facts.Block', 'Facts.TieFee', 'Facts.TieTransition', 'Facts.TieAnteSig', 'Facts.TieMeta', 'Facts.TieEmpty'],
         facts=['*'],
-        theorems=['tie_effective_fee', 'tie_refund_gas', 'tie_refund_is_model', 'tie_deduct_fee_flag', 'fact_translated_all', 'C04_transfer_conserves', 'C04_addBalance', 'C04_subBalance', 'C04_refund_conserves', 'C04_evmModule_zero',
+        theorems=['tie_is_empty_account', 'tie_effective_fee', 'tie_refund_gas', 'tie_refund_is_model', 'tie_deduct_fee_flag', 'fact_translated_all', 'C04_transfer_conserves', 'C04_addBalance', 'C04_subBalance', 'C04_refund_conserves', 'C04_evmModule_zero',
                   'C04_supply', 'C04_sender_collector', 'C05_collector_gain', 'mintTo_effect', 'burnFrom_effect', 'sendCoins_bal',
                   'fact_balance_sites', 'fact_refund_mints', 'fact_refund_burnt_from_collector'],
         engines=[dict(name='block', test='TestEngineBlock', quick=500, thorough=6000, thorough_seeds=3),
@@ -99,9 +99,9 @@ PROPS = {
         rule=BLOCK_RULE, assumptions=BLOCK_ASSUME + ['C05_bounds lower bound assumes intrinsic + refundCounter <= gas used before refund (geth gas table: every refunded unit was paid for); E-block checks intrinsic <= gasUsed on every committed tx'],
     ),
     'C06': dict(
-        lean_modules=['Model.Block', 'Model.Ante', 'Properties.C05', 'Properties.C06', 'Properties.C07', 'Facts.Block', 'Facts.Ante', 'Facts.TieTransition', 'Facts.TieAnteEvm', 'Facts.TieAnteSig', 'Facts.TieMeta'],
+        lean_modules=['Model.Block', 'Model.Ante', 'Properties.C05', 'Properties.C06', 'Properties.C07', 'Facts.Block', 'Facts.Ante', 'Facts.TieTransition', 'Facts.TieAnteEvm', 'Facts.TieAnteSig', 'Facts.TieMeta', 'Facts.TieEmpty'],
         facts=['*'],
-        theorems=['tie_pre_check_accepts', 'tie_validate_eoa', 'tie_sig_verification', 'tie_sig_accepts', 'tie_increment_sequence', 'tie_increment_is_plus_one', 'tie_deduct_fee_flag', 'fact_translated_all', 'fact_uninterpreted', 'C06_authorised', 'C06_seq_plus_one', 'C06_seq_unchanged', 'C06_seq_monotone', 'C06_no_replay', 'C06_seq_counts',
+        theorems=['tie_is_empty_account', 'tie_pre_check_accepts', 'tie_validate_eoa', 'tie_sig_verification', 'tie_sig_accepts', 'tie_increment_sequence', 'tie_increment_is_plus_one', 'tie_deduct_fee_flag', 'fact_translated_all', 'fact_uninterpreted', 'C06_authorised', 'C06_seq_plus_one', 'C06_seq_unchanged', 'C06_seq_monotone', 'C06_no_replay', 'C06_seq_counts',
                   'C07_handler_unreachable', 'C07_cosmos_lane', 'fact_nonce_flag_used', 'fact_ante_order', 'fact_ante_chain', 'fact_disabled_list'],
         engines=[dict(name='block', test='TestEngineBlock', quick=500, thorough=6000, thorough_seeds=3),
                  dict(name='ante', test='TestEngineAnte', quick=250, thorough=3000, thorough_seeds=2),
@@ -121,9 +121,9 @@ PROPS = {
         rule=BLOCK_RULE, assumptions=BLOCK_ASSUME + ['bloom filters: the theorems (exactly the own logs, union, order-independence, 2048 bits) hold for any hash function; that the code computes the same function is the correspondence of the `bloom` lines (Lean Keccak-256 on the logs of the real receipts of every block vs the receipts\' Bloom fields and the block_bloom event), plus the Go-side oracle block-bloom'],
     ),
     'C03': dict(
-        lean_modules=['Model.CDbGeneric', 'Model.World', 'Model.StateDB', 'Model.CallTree', 'Proofs.CDb', 'Properties.C03', 'Properties.C12'],
+        lean_modules=['Model.CDbGeneric', 'Model.World', 'Model.StateDB', 'Model.CallTree', 'Proofs.CDb', 'Properties.C03', 'Properties.C12', 'Facts.TieEmpty', 'Facts.TieMeta'],
         facts=['*'],
-        theorems=['C03_revert_exact', 'C03_no_trace', 'C03_ids_stable', 'C03_calltree', 'C03_vmerr_residue', 'C03_reverted_frame_no_trace',
+        theorems=['tie_is_empty_account', 'C03_revert_exact', 'C03_no_trace', 'C03_ids_stable', 'C03_calltree', 'C03_vmerr_residue', 'C03_reverted_frame_no_trace',
                   'execNode_spec', 'execList_spec', 'framed_run', 'revertGo_frame', 'revert_ok', 'snapshot_ok', 'upd_ok'],
         engines=[dict(name='statedb', test='TestEngineStatedb', quick=6000, thorough=120000, thorough_seeds=3),
                  dict(name='calltree', test='TestEngineCalltree', quick=300, thorough=6000, thorough_seeds=2),
@@ -270,9 +270,9 @@ PROPS['C17'] = dict(
 )
 
 PROPS['C15'] = dict(
-    lean_modules=['Model.World', 'Model.StateDB', 'Proofs.World', 'Properties.C15', 'Facts.StateDB', 'Facts.TieTransition', 'Facts.TieMeta'],
+    lean_modules=['Model.World', 'Model.StateDB', 'Proofs.World', 'Properties.C15', 'Facts.StateDB', 'Facts.TieTransition', 'Facts.TieMeta', 'Facts.TieEmpty'],
     facts=['*'],
-    theorems=['tie_destroy_guard', 'tie_destroyable', 'fact_translated_all', 'fact_uninterpreted', 'C15_destroy_needs_unprotected', 'C15_delete_complete', 'C15_commit_keeps_protected', 'C15_no_silent_delete',
+    theorems=['tie_is_empty_account', 'tie_destroy_guard', 'tie_destroyable', 'fact_translated_all', 'fact_uninterpreted', 'C15_destroy_needs_unprotected', 'C15_delete_complete', 'C15_commit_keeps_protected', 'C15_no_silent_delete',
               'C15_locked_never_spent', 'C15_subBalance_respects_lock', 'destroyAccount_ok', 'burnAll_keeps', 'destroyAccount_others',
               'protected_not_destroyable', 'fact_destroy_guard_block_time', 'fact_destroy_removes_everything', 'fact_commit_sorted'],
     engines=[dict(name='statedb', test='TestEngineStatedb', quick=6000, thorough=120000, thorough_seeds=3),
@@ -312,9 +312,9 @@ PROPS['C18'] = dict(
 
 GETH_RULE = 'per epoch five contracts with generated programs (SSTORE/SLOAD on four slots incl. clearing, LOG0/1, CALL/STATICCALL/DELEGATECALL/CALLCODE with and without value to each other and to fresh addresses, three-call bursts with value to one target, CREATE/CREATE2 with storing, code-returning or reverting init code, SELFDESTRUCT to any target, REVERT, INVALID, BALANCE/EXTCODESIZE/EXTCODEHASH) and 12-24 messages (calls with value, plain transfers, creation transactions) executed through evermint ApplyMessage and through go-ethereum core.ApplyMessage on a state.StateDB seeded with the mirrored pre-state, same chain config and block context; compared after every message: error class, return data, gas used, logs, and nonce / balance / code / four storage slots of ~150 tracked addresses (universe, CREATE and CREATE2 targets); non-trivial = every message line; distinct by op-line hash'
 PROPS['C02'] = dict(
-    lean_modules=['Model.StateDB', 'Proofs.World', 'Properties.C02', 'Properties.C03', 'Facts.Geth', 'Facts.Block'],
+    lean_modules=['Model.StateDB', 'Proofs.World', 'Properties.C02', 'Properties.C03', 'Facts.Geth', 'Facts.Block', 'Facts.TieEmpty', 'Facts.TieMeta'],
     facts=['*'],
-    theorems=['C02_setNonce_sim', 'C02_setCode_sim', 'C02_setState_sim', 'C02_addBalance_sim', 'C02_subBalance_sim',
+    theorems=['tie_is_empty_account', 'C02_setNonce_sim', 'C02_setCode_sim', 'C02_setState_sim', 'C02_addBalance_sim', 'C02_subBalance_sim',
               'C02_diff_zero_credit_creates_nothing', 'C02_diff_storage_only_not_empty', 'C02_zero_address_warm', 'C03_revert_exact',
               'nonceOf_ensureAcc', 'fact_fork_write_primitives', 'fact_fork_precompile_list_zero_prefixed', 'fact_refund_quotients', 'fact_refund_quotient'],
     engines=[dict(name='geth', test='TestEngineGeth', quick=800, thorough=8000, thorough_seeds=3, no_model=True),
